@@ -77,6 +77,19 @@ theorem C07_tx (w : Bytes) (ok : Bool) :
     (transmit w ok).1 = [w] ∧ (transmit w ok).2.1 = (if ok then 1 else 0) ∧ (transmit w ok).2.2 = ok := by
   cases ok <;> simp [transmit]
 
+/-- A history of transmits on one transmitter: the k-th write is the k-th frame's own 16 bytes whatever was sent
+before it (no payload survives from one call to the next), every call writes exactly once, and the interceptor sees
+exactly the frames whose write succeeded. -/
+theorem C07_tx_history (xs : List (Bytes × Bool)) :
+    (transmitSeq xs).1 = xs.map (·.1) ∧ (transmitSeq xs).2.1 = (xs.filter (·.2)).length ∧
+    (transmitSeq xs).2.2 = xs.map (·.2) := by
+  induction xs with
+  | nil => simp [transmitSeq]
+  | cons x xs ih =>
+    obtain ⟨w, ok⟩ := x
+    obtain ⟨h1, h2, h3⟩ := ih
+    cases ok <;> simp [transmitSeq, transmit, h1, h2, h3] <;> omega
+
 /-- non-vacuity: a 33-byte stream cut as 1 + 31 + 1 bytes gives two frames. -/
 example : (runScript ([[0], List.replicate 31 1, [2]].map okRead) []).1.length = 2 := by decide +kernel
 
